@@ -5,7 +5,7 @@ ProxyTrace.tla."""
 import json, os, time, random, collections, concurrent.futures as cf
 from . import common as C
 
-FORMULAS = ["TranscriptEquivalence", "BackendSaw", "RequestMetadata"]
+FORMULAS = ["TranscriptEquivalence", "BackendSaw", "RequestMetadata", "TranscriptEquivalenceHTTP", "BackendSawHTTP", "RequestMetadataHTTP"]
 
 
 def design_check(scratch):
@@ -106,20 +106,22 @@ def run(prop, tier, replay=None):
                 raise C.Infra("a direct call did not behave as the model of the backend/grpc-go says: %s" % json.dumps(ev)[:800])
             if formula not in FORMULAS:
                 continue
+            front = "http" if formula.endswith("HTTP") else "grpc"
             sig = dict(module="Proxy", formula=formula, zero_client_messages=(s["n"] == 0), client_waits_first=bool(s["wait"]),
                        client_streams=s["shape"] in ("cstream", "bidi"), shape=s["shape"])
             kf = C.match_finding(findings, prop, sig)
             if kf:
                 known[kf["id"]] += 1
                 continue
-            key = (formula, s["shape"], s["mode"], s["n"] == 0, s["wait"], s["failAt"], ev["proxied"]["hang"])
+            key = (formula, s["shape"], s["mode"], s["n"] == 0, s["wait"], s["failAt"], ev["http" if front == "http" else "proxied"]["hang"])
             if key in viol:
                 viol[key]["more"] += 1
                 continue
             viol[key] = dict(property=prop, formula=formula, seed=seed, cases=[by_id[case]], observed=ev, signature=sig, more=0, replay_driver="proxy",
                              what="%s: %s %s n=%d readN=%d replies=%d failAt=%s failK=%d code=%d wait=%s: direct %s vs proxied %s" % (
                                  formula, s["shape"], s["mode"], s["n"], s["readN"], s["replyJ"], s["failAt"], s["failK"], s["code"], s["wait"],
-                                 {k: ev["direct"][k] for k in ("replies", "code", "bgot", "hang")}, {k: ev["proxied"][k] for k in ("replies", "code", "bgot", "bcalls", "hang", "mdok")}))
+                                 {k: ev["direct"][k] for k in ("replies", "code", "bgot", "hang")},
+                                 {k: ev["http" if front == "http" else "proxied"][k] for k in ("replies", "code", "msgequal", "detequal", "bgot", "bcalls", "hang", "mdok", "err")}))
         for fid, nn in sorted(known.items()):
             f = next(x for x in findings if x["id"] == fid)
             print("KNOWN-FINDING: property=%s %s (%d observations this run)" % (prop, f["what"], nn))
